@@ -15,3 +15,33 @@ def _(self, i):
     types(i="int")
     ensures(result == (i in self.chr_to_ref))
     modifies()
+
+
+@contract("aldy.gene.Gene.is_functional", assumed=True)
+def _(self, mut, infer):
+    # the effect table / amino-acid inference is data: an abstract predicate of (position, change)
+    types(mut="Tuple[int, str]", infer="bool")
+    ensures(result == opaque("is_functional", "bool", mut[0], mut[1], infer))
+    modifies()
+
+
+@contract("aldy.gene.Gene.has_coverage")
+def _(self, a, pos):
+    types(a="str", pos="int")
+    requires(gene_wf(self))
+    requires(a in self.alleles and self.alleles[a].cn_config in self.cn_configs)
+    requires(forall(lambda c=str, g=int, r=str: implies(c in self.cn_configs and 0 <= g and g < len(self.regions) and r in self.regions[g],
+                                                        g < len(self.cn_configs[c].cn) and r in self.cn_configs[c].cn[g])))
+    # C09/C02: the allele's structure has at least one copy of the region that contains the position
+    ensures(result == (pos in self._region_at and
+                       self.cn_configs[self.alleles[a].cn_config].cn[self._region_at[pos][0]][self._region_at[pos][1]] > 0))
+    modifies()
+
+
+@contract("aldy.gene.Gene.deletion_allele")
+def _(self):
+    returns("Optional[str]")
+    # the (unique by construction) configuration of kind DELETION, None if there is none
+    ensures((result is None) == (not any(self.cn_configs[c].kind == 3 for c in self.cn_configs)))
+    ensures(implies(result is not None, result in self.cn_configs and self.cn_configs[result].kind == 3))
+    modifies()
